@@ -1,2 +1,261 @@
-(* C10 -- placeholder while the proofs are being written *)
-From LK Require Import Model.C10_als Model.C10_funksvd.
+(* C10 -- Matrix-factorisation training meets its optimality conditions and update rules.
+   Property theorems only; each is closed by `exact <lemma>` and followed by Print Assumptions.
+
+   Property text -> theorem
+   * "after each ALS half-step every updated embedding is the exact solution of the regularised
+     least-squares problem defined by the other side's current embeddings (squared error on
+     bias-normalised ratings with a ridge term scaled by the row's rating count ...)"
+        -> normal_eq_iff_minimiser, minimiser_unique            (any real field, MathComp matrices)
+           explicit_row_minimises, halfstep_explicit_optimal     (the executable model, over Q)
+   * "(... the confidence-weighted implicit-feedback objective otherwise)"
+        -> implicit_system_iff_minimiser, implicit_minimiser_unique, implicit_row_minimises,
+           halfstep_implicit_optimal
+   * the residual check used on every observed half-step is a verified checker
+        -> halfstep_checker_sound_complete, halfstep_inhabits_checker
+   * "rows without data keep their previous values"
+        -> empty_rows_kept, empty_rows_kept_checked
+   * rows are solved independently of one another (what the chunked fan-out relies on)
+        -> halfstep_rows_independent, halfstep_row_with_data
+   * "the embedding folded in for a supplied user history is the corresponding solution for that
+     history"  -> foldin_is_same_system, foldin_is_row_update, foldin_uses_known_items
+   * "scores are embedding dot products plus the applicable bias terms"
+        -> score_is_dot_plus_bias, score_is_dot_implicit
+   * "FunkSVD training equals feature-by-feature stochastic gradient descent over the seeded
+     sample order with the documented update rule, learning rate, regularisation, range clamping
+     and trailing-feature estimate"
+        -> funksvd_is_featurewise_sgd (every arithmetic instance: binary64 and Q), sgd_rule,
+           trailing_estimate, clamps_agree
+   Contract, not a theorem: lenskit.math.solve.solve_cholesky returns a solution of A x = y
+   (hypothesis solver_exact_on; its output is checked through the residual on every case).
+   Not a theorem: that BLAS/torch evaluate the Gram products as written, that the TorchScript
+   fork/wait fan-out (> 50 rows) runs the same per-row function, the seeded shuffle of NumPy --
+   covered by the correspondence runs (thorough tier includes > 50-row trainings). *)
+From mathcomp Require Import all_ssreflect all_algebra.
+From LK Require Proofs.C10_normal_eq.
+From Coq Require Import ZArith QArith List.
+From LK Require Import Lib.QLib Model.C10_als Model.C10_funksvd Proofs.C10_ls Proofs.C10_als_proofs Proofs.C10_funksvd_proofs.
+Import ListNotations.
+Module NE := LK.Proofs.C10_normal_eq.
+
+(* ------------------------------------------------------------------------------------------ *)
+(* Real-field statements.  obj x = |M x - v|^2 + c |x|^2,  A = M^T M + c I,  y = M^T v.
+   For a row with n ratings the code takes c = lambda * n. *)
+Open Scope ring_scope.
+Theorem normal_eq_iff_minimiser :
+  forall (R : realFieldType) (m n : nat) (M : 'M[R]_(m, n)) (v : 'cV[R]_m) (c : R) (x : 'cV[R]_n),
+  (0 <= c)%R ->
+  (NE.A M c *m x = NE.y M v <-> forall d, (NE.obj M v c x <= NE.obj M v c (x + d))%R).
+Proof. exact NE.normal_eq_iff_minimiser. Qed.
+Print Assumptions normal_eq_iff_minimiser.
+
+Theorem minimiser_unique :
+  forall (R : realFieldType) (m n : nat) (M : 'M[R]_(m, n)) (v : 'cV[R]_m) (c : R) (x x' : 'cV[R]_n),
+  (0 < c)%R ->
+  (forall d, (NE.obj M v c x <= NE.obj M v c (x + d))%R) ->
+  (forall d, (NE.obj M v c x' <= NE.obj M v c (x' + d))%R) -> x = x'.
+Proof. exact NE.minimiser_unique. Qed.
+Print Assumptions minimiser_unique.
+
+(* implicit feedback: O = all embeddings of the other side, p_i = 1 on observed entries,
+   confidence 1 + e_i with e_i = weight * rating on observed entries and 0 elsewhere.
+   A_code = (O^T O + c I) + O^T diag(e) O,  y_code = O^T ((1 + e) o p);
+   objw O p (1+e) c x = sum_i (1 + e_i) ((O x)_i - p_i)^2 + c |x|^2. *)
+Theorem implicit_system_iff_minimiser :
+  forall (R : realFieldType) (m n : nat) (O : 'M[R]_(m, n)) (p e : 'cV[R]_m) (c : R),
+  (forall i, (0 <= e i 0)%R) -> forall x : 'cV[R]_n, (0 <= c)%R ->
+  (NE.A_code O e c *m x = NE.y_code O p e <->
+   forall d, (NE.objw O p (NE.conf e) c x <= NE.objw O p (NE.conf e) c (x + d))%R).
+Proof. exact NE.implicit_normal_eq_iff_minimiser. Qed.
+Print Assumptions implicit_system_iff_minimiser.
+
+Theorem implicit_minimiser_unique :
+  forall (R : realFieldType) (m n : nat) (O : 'M[R]_(m, n)) (p e : 'cV[R]_m) (c : R),
+  (forall i, (0 <= e i 0)%R) -> forall x x' : 'cV[R]_n, (0 < c)%R ->
+  NE.A_code O e c *m x = NE.y_code O p e -> NE.A_code O e c *m x' = NE.y_code O p e -> x = x'.
+Proof. exact NE.implicit_normal_eq_unique. Qed.
+Print Assumptions implicit_minimiser_unique.
+
+(* ------------------------------------------------------------------------------------------ *)
+(* The executable model (lists over Q). *)
+Close Scope ring_scope.
+Open Scope Q_scope.
+
+(* the system the model builds for an explicit-feedback row (M = other[cols], vals = normalised
+   ratings): any exact solution minimises  sum_j (m_j . x - v_j)^2 + lam * |M| * |x|^2 *)
+Theorem explicit_row_minimises : forall k lam M v x,
+  Forall (fun m => length m = k) M -> length v = length M -> length x = k -> 0 <= lam ->
+  veq (matvec (fst (normal_eq_explicit k lam M v)) x) (snd (normal_eq_explicit k lam M v)) ->
+  forall x', length x' = k ->
+    obj_explicit M v (lam * Qofnat (length M)) x <= obj_explicit M v (lam * Qofnat (length M)) x'.
+Proof. exact explicit_solution_minimises. Qed.
+Print Assumptions explicit_row_minimises.
+
+(* implicit row: OtOr + (M^T * vals) M, M^T (vals + 1) built from the selected rows only is the
+   system of  sum_{all i} (1 + e_i)(o_i . x - p_i)^2 + lam |x|^2 *)
+Theorem implicit_row_minimises : forall k lam other row x,
+  Forall (fun o => length o = k) other ->
+  NoDup (map fst row) -> Forall (fun c => (lt c (length other))) (map fst row) ->
+  Forall (fun v => 0 <= v) (map snd row) -> 0 <= lam -> length x = k ->
+  veq (matvec (fst (row_system_implicit k (otor k lam other) other row)) x)
+      (snd (row_system_implicit k (otor k lam other) other row)) ->
+  forall x', length x' = k -> obj_implicit other row lam x <= obj_implicit other row lam x'.
+Proof. exact implicit_solution_minimises. Qed.
+Print Assumptions implicit_row_minimises.
+
+(* the residual check at tolerance 0 decides "rows with data solve their system, rows without
+   data are unchanged" *)
+Theorem halfstep_checker_sound_complete : forall sys left rows left',
+  halfstep_ok 0 sys left rows left' = true <-> halfstep_spec sys left rows left'.
+Proof. exact halfstep_ok_exact. Qed.
+Print Assumptions halfstep_checker_sound_complete.
+
+(* ... and the half-step run with an exact solver satisfies it *)
+Theorem halfstep_inhabits_checker : forall solve sys left rows, length left = length rows ->
+  solver_exact_on solve sys rows -> halfstep_ok 0 sys left rows (halfstep solve sys left rows) = true.
+Proof. exact halfstep_passes_checker. Qed.
+Print Assumptions halfstep_inhabits_checker.
+
+Theorem halfstep_explicit_optimal : forall k lam other left rows left',
+  Forall (fun o => length o = k) other -> 0 <= lam ->
+  halfstep_spec (row_system Explicit k lam other) left rows left' ->
+  forall i row new, nth_error rows i = Some row -> row <> [] -> nth_error left' i = Some new ->
+    length new = k /\
+    forall x', length x' = k -> row_obj_explicit k lam other row new <= row_obj_explicit k lam other row x'.
+Proof. exact Proofs.C10_als_proofs.halfstep_explicit_optimal. Qed.
+Print Assumptions halfstep_explicit_optimal.
+
+Theorem halfstep_implicit_optimal : forall k lam other left rows left',
+  Forall (fun o => length o = k) other -> 0 <= lam ->
+  Forall (fun row => NoDup (map fst row) /\ Forall (fun c => (lt c (length other))) (map fst row)
+                     /\ Forall (fun v => 0 <= v) (map snd row)) rows ->
+  halfstep_spec (row_system Implicit k lam other) left rows left' ->
+  forall i row new, nth_error rows i = Some row -> row <> [] -> nth_error left' i = Some new ->
+    length new = k /\
+    forall x', length x' = k -> row_obj_implicit k lam other row new <= row_obj_implicit k lam other row x'.
+Proof. exact Proofs.C10_als_proofs.halfstep_implicit_optimal. Qed.
+Print Assumptions halfstep_implicit_optimal.
+
+Theorem empty_rows_kept : forall solve sys left rows i,
+  nth_error rows i = Some [] -> nth_error (halfstep solve sys left rows) i = nth_error left i.
+Proof. exact empty_rows_kept_l. Qed.
+Print Assumptions empty_rows_kept.
+
+Theorem empty_rows_kept_checked : forall tol sys left rows left' i old new,
+  halfstep_ok tol sys left rows left' = true ->
+  nth_error rows i = Some [] -> nth_error left i = Some old -> nth_error left' i = Some new -> veq new old.
+Proof. exact Proofs.C10_als_proofs.empty_rows_kept_checked. Qed.
+Print Assumptions empty_rows_kept_checked.
+
+Theorem halfstep_rows_independent : forall solve sys left1 left2 rows1 rows2 i,
+  nth_error rows1 i = nth_error rows2 i -> nth_error left1 i = nth_error left2 i ->
+  nth_error (halfstep solve sys left1 rows1) i = nth_error (halfstep solve sys left2 rows2) i.
+Proof. exact halfstep_rows_independent_l. Qed.
+Print Assumptions halfstep_rows_independent.
+
+Theorem halfstep_row_with_data : forall solve sys left rows i row old,
+  nth_error rows i = Some row -> row <> [] -> nth_error left i = Some old ->
+  nth_error (halfstep solve sys left rows) i = Some (solve (fst (sys row)) (snd (sys row))).
+Proof. exact Proofs.C10_als_proofs.halfstep_row_with_data. Qed.
+Print Assumptions halfstep_row_with_data.
+
+Theorem foldin_is_same_system : forall k lam OtOr items row,
+  foldin_system_explicit k lam items row = row_system_explicit k lam items row /\
+  foldin_system_implicit k OtOr items row = row_system_implicit k OtOr items row.
+Proof. intros. split; [apply foldin_is_same_system_explicit|apply foldin_is_same_system_implicit]. Qed.
+Print Assumptions foldin_is_same_system.
+
+Theorem foldin_is_row_update : forall solve k lam items row old, row <> [] ->
+  foldin_explicit solve k lam items row = row_update solve (row_system Explicit k lam items) (vzero k) row /\
+  foldin_implicit solve k (otor k lam items) items row = row_update solve (row_system Implicit k lam items) old row.
+Proof. intros. split; [apply foldin_is_row_update_explicit|apply foldin_is_row_update_implicit]; assumption. Qed.
+Print Assumptions foldin_is_row_update.
+
+Theorem foldin_uses_known_items : forall b damp w ur vocab h,
+  map fst (foldin_rows_explicit b damp vocab h) = map fst (known_rows vocab h) /\
+  map fst (foldin_rows_implicit w ur vocab h) = map fst (known_rows vocab h) /\
+  map fst (known_rows vocab h) =
+    flat_map (fun ir => match number vocab (fst ir) with Some n => [n] | None => [] end) h /\
+  Forall (fun n => (lt n (length vocab))) (map fst (known_rows vocab h)).
+Proof.
+  intros. split; [apply foldin_explicit_items|]. split; [apply foldin_implicit_items|].
+  exact (Proofs.C10_als_proofs.foldin_uses_known_items vocab h).
+Qed.
+Print Assumptions foldin_uses_known_items.
+
+Theorem score_is_dot_plus_bias : forall vocab k items b u ub cands,
+  map fst (score_explicit vocab k items b u ub cands) = cands /\
+  forall j i, nth_error cands j = Some i ->
+    nth_error (score_explicit vocab k items b u ub cands) j =
+    Some (i, match number vocab i with
+             | Some n => Some (C10_als.dot (nth n items (vzero k)) u + (b_global b + nth n (b_item b) 0 + ub))
+             | None => None
+             end).
+Proof. exact score_is_dot_plus_bias_explicit. Qed.
+Print Assumptions score_is_dot_plus_bias.
+
+Theorem score_is_dot_implicit : forall vocab k items u cands,
+  map fst (score_implicit vocab k items u cands) = cands /\
+  forall j i, nth_error cands j = Some i ->
+    exists s, nth_error (score_implicit vocab k items u cands) j = Some (i, s) /\
+      match number vocab i, s with
+      | Some n, Some v => v == C10_als.dot (nth n items (vzero k)) u
+      | None, None => True
+      | _, _ => False
+      end.
+Proof. exact Proofs.C10_als_proofs.score_is_dot_implicit. Qed.
+Print Assumptions score_is_dot_implicit.
+
+(* ------------------------------------------------------------------------------------------ *)
+(* FunkSVD.  `train` is the transcription of the array-updating loops; `train_cols` trains one
+   pair of columns per feature with `col_sample` (the documented rule) from the initial value,
+   with trail = init*init*(features still untrained) and the running estimate clamped after
+   each feature (`col_next_est`).  Holds for every arithmetic instance. *)
+Theorem funksvd_is_featurewise_sgd : forall (Ar : arith) p nfeat nusers nitems smps f, (lt f (nfeat)) ->
+  nth_error (train_cols Ar p nfeat nusers nitems nfeat smps) f =
+  Some (proj Ar f (train Ar p nfeat nusers nitems smps)).
+Proof. exact train_is_featurewise. Qed.
+Print Assumptions funksvd_is_featurewise_sgd.
+
+Theorem sgd_rule : forall (p : params q_arith) (trail : Q) (uc ic : list Q) user item rating est,
+  let u := get1 q_arith uc user in
+  let i := get1 q_arith ic item in
+  let pred := clamp_loop q_arith (rng q_arith p) (est + u * i + trail) in
+  let err := rating - pred in
+  (lt user (length uc)) -> (lt item (length ic)) ->
+  let st' := col_sample q_arith p trail (uc, ic) (user, item, rating, est) in
+  get1 q_arith (fst st') user == u + lrate q_arith p * (err * i - reg_term q_arith p * u) /\
+  get1 q_arith (snd st') item == i + lrate q_arith p * (err * u - reg_term q_arith p * i) /\
+  (forall u', u' <> user -> get1 q_arith (fst st') u' = get1 q_arith uc u') /\
+  (forall i', i' <> item -> get1 q_arith (snd st') i' = get1 q_arith ic i').
+Proof. exact sgd_rule_Q. Qed.
+Print Assumptions sgd_rule.
+
+Theorem trailing_estimate : forall (p : params q_arith) (nfeat f : nat),
+  init q_arith p * init q_arith p * of_nat q_arith (nfeat - f - 1)
+  == Qsum (repeat (init q_arith p * init q_arith p) (nfeat - f - 1)).
+Proof. exact trail_is_untrained_Q. Qed.
+Print Assumptions trailing_estimate.
+
+Theorem clamps_agree : forall lo hi e : Q, lo <= hi ->
+  clamp_loop q_arith (Some (lo, hi)) e = clamp_np q_arith (Some (lo, hi)) e.
+Proof. exact clamps_agree_Q. Qed.
+Print Assumptions clamps_agree.
+
+(* ------------------------------------------------------------------------------------------ *)
+(* non-vacuity: a two-user, two-item explicit half-step with an exactly solved row and a row
+   without data is accepted by the checker at tolerance 0 (so the hypotheses of
+   halfstep_explicit_optimal are satisfiable on a non-trivial state), the same state with a
+   perturbed solution is rejected, and FunkSVD over Q on two samples moves both features. *)
+Example c10_nonvacuous :
+  let other : mat := [[1; 0]; [0; 1]] in
+  let rows : list srow := [[(0%nat, 3); (1%nat, 1)]; []] in
+  let left : mat := [[5; 5]; [7 # 2; 1]] in
+  let sys := row_system Explicit 2 (1 # 2) other in
+  (* row 0: A = I + (1/2)*2*I = 2I, y = (3, 1)  =>  x = (3/2, 1/2) *)
+  halfstep_ok 0 sys left rows [[3 # 2; 1 # 2]; [7 # 2; 1]] = true /\
+  halfstep_ok 0 sys left rows [[3 # 2; 1]; [7 # 2; 1]] = false /\
+  halfstep_ok 0 sys left rows [[3 # 2; 1 # 2]; [0; 0]] = false /\
+  let p : params q_arith := Build_params q_arith 1 (1 # 10) (1 # 100) (Some (1 # 2, 5)) (1 # 10) in
+  let r := train q_arith p 2 2 2 [(0%nat, 0%nat, 4, 3); (1%nat, 0%nat, 2, 3)] in
+  get2 q_arith (fst r) 0 0 <> (1 # 10) /\ get2 q_arith (fst r) 0 1 <> (1 # 10).
+Proof. cbv zeta. repeat split; try (vm_compute; reflexivity); vm_compute; discriminate. Qed.
